@@ -21,7 +21,7 @@ from concurrent.futures import ThreadPoolExecutor
 from ..common import Run, MachineryError, quiet_pygaps, exc_class
 from .. import tlc
 from ..encode import dec_dec
-from ..models_common import frac, fpar, par_key, build, denc as dec_enc, history_records
+from ..models_common import frac, fpar, par_key, build, denc as dec_enc, history_records, elementwise_records, wrapper_elementwise_records
 
 PID = "C11"
 TOL_CLOSED = 1e-9     # analytic antiderivatives of the library
@@ -76,7 +76,7 @@ class Batch:
         for h, a in zip(self.handlers, answers):
             h(a)
         run.add("traces_validated_against_impl", len(self.recs))
-        for kind in ("geo", "pt", "hist"):
+        for kind in ("geo", "pt", "hist", "elem"):
             idx = [i for i, r in enumerate(self.recs) if r["k"] == kind]
             if idx:
                 k = idx[rng.randrange(len(idx))]
@@ -85,7 +85,7 @@ class Batch:
                     r["pts"] = r["pts"][:3] + ["..."] + r["pts"][-2:]
                 if kind == "hist":
                     r["evals"] = r["evals"][:2] + ["..."]
-                run.sample({"kind": "observation record judged by SpreadingOracle (%s)" % {"geo": "GeoStep", "pt": "PtStep", "hist": "HistStep"}[kind],
+                run.sample({"kind": "observation record judged by SpreadingOracle (%s)" % {"geo": "GeoStep", "pt": "PtStep", "hist": "HistStep", "elem": "ElemStep"}[kind],
                             "record": r, "answer": answers[k]}, limit=8)
 
 
@@ -444,7 +444,26 @@ def main(tier, seed):
     relational(run, grid, meta, rng, thorough, batch)
     model_isotherm_units(run, meta, rng, thorough, batch, fac)
     point_isotherms(run, scen, meta, rng, thorough, batch, fac)
-    plans = tlc.oracle("SpreadingOracle", [{"k": "histplan"}], timeout=600)[0]["plans"]
+    hp = tlc.oracle("SpreadingOracle", [{"k": "histplan"}, {"k": "elemplan"}], timeout=600)
+    plans, eplan = hp[0]["plans"], hp[1]
+    # elementwise clause where arrays are accepted (the analytic antiderivatives): unsorted arrays with a repeated element
+    import pygaps
+    ne = 0
+    for model in sorted(eplan["args"]):
+        items = elementwise_records(run, model, "loading", eplan["args"][model], eplan["patterns"], [("spreading_pressure", "args")],
+                                    ("ndarray", "series"), 5 if thorough else 2, 3 if thorough else 2, rng,
+                                    value_clause_of={"spreading_pressure": "integral"})
+        entries = sorted(eplan["args"][model], key=lambda e: par_key(e["par"]))
+        e = entries[rng.randrange(len(entries))]
+        iso = pygaps.ModelIsotherm(model=build(model, e["par"]), material=dict(MAT), adsorbate="nitrogen", temperature=77.344,
+                                   pressure_mode="absolute", pressure_unit="bar", loading_basis="molar", loading_unit="mmol",
+                                   material_basis="mass", material_unit="g")
+        items += wrapper_elementwise_records(run, iso, iso.model, model, [("spreading_pressure_at", "spreading_pressure", [float(frac(x)) for x in e["xs"]])],
+                                             eplan["patterns"], 2 if thorough else 1, rng)
+        for rec, handler in items:
+            batch.add(rec, handler)
+            ne += 1
+    run.set(elementwise_records=ne)
     nh = 0
     for model in sorted(plans):
         for rec, handler in history_records(run, plans[model], model, "loading", [("loading", "args"), ("spreading_pressure", "args")],
@@ -460,6 +479,8 @@ def main(tier, seed):
                  + ("all" if thorough else "a seeded fifth (at least 3 per model) of the") + " general parameter vectors of all 13 models, judged by TLC with Simpson sums; "
                  "(b2) histories on one model object (evaluate, another instance of the class, every parameter overwritten in place, re-fit in place; same pressures "
                  "re-evaluated after each step) for " + ("5" if thorough else "2") + " seeded parameter-vector pairs per model, judged against a fresh model (Models!HistStep); "
+                 "(b3) elementwise clause for the 9 models whose spreading_pressure accepts arrays: unsorted 6-element ndarray / pandas.Series with a repeated element (patterns from the "
+                 "specification) judged position by position against the scalar call, and ndarray/list/Series through ModelIsotherm.spreading_pressure_at (Models!ElemStep); "
                  "(c) ModelIsotherm.spreading_pressure_at for 4 models x 2 native modes x 6 pressure representations; (d) "
                  + ("all 475" if thorough else "90 seeded") + " enumerated point-isotherm data sets x every query class (below range, first point, inside, data point, edge) "
                  "x native / foreign pressure unit or mode / loading unit. non-trivial = positive pressure (a) / query beyond the Henry segment (d); "
